@@ -4,6 +4,8 @@ import (
 	"context"
 	"errors"
 	"fmt"
+	"io"
+	"os"
 	"sort"
 	"strings"
 
@@ -124,12 +126,16 @@ func (o regOp) String() string {
 func secondPolicy(first string, c int) string {
 	switch first {
 	case "allow", "deny":
-		if c == 0 {
+		switch c {
+		case 0:
 			return "invalid"
+		case 2:
+			// the OTHER valid policy: options apply in order, the last one decides
+			return map[string]string{"allow": "deny", "deny": "allow"}[first]
 		}
 		return first
 	}
-	return []string{"allow", "deny"}[c]
+	return []string{"allow", "deny"}[c%2]
 }
 
 func policyOpt(p string, node bool) ([]el.Option, el.RegistrationPolicy, bool) {
@@ -381,7 +387,7 @@ func (w *regWorld) apply(op regOp) (ms []mismatch, failed bool) {
 			before[o] = o.Reopens
 			o.ReopenErr = nil
 			if op.FailNode != "" && o.Label == op.FailNode {
-				o.ReopenErr = fmt.Errorf("injected reopen error of %s", o.Label)
+				o.ReopenErr = reopenFailure(o.Label, len(o.Label)+op.Thr+w.nodeSeq)
 			}
 			if wn := w.wrapOf[o]; wn != nil {
 				wbefore[wn] = wn.Reopens
@@ -761,7 +767,7 @@ func runRegistrySeqOps(rc *RunCtx, prop string, fixed []regOp) {
 				o.SameObj = true
 			}
 			if (prop == "C05" || prop == "C07") && o.Policy != "" && tp.Choose(4, "policy2") == 0 {
-				o.Policy2 = secondPolicy(o.Policy, tp.Choose(2, "policy2-kind"))
+				o.Policy2 = secondPolicy(o.Policy, tp.Choose(3, "policy2-kind"))
 			}
 			if (prop == "C05" || prop == "C07" || prop == "C06") && tp.Choose(6, "otherkind") == 0 {
 				// the node behind an id (possibly in use) is replaced by one of ANOTHER kind
@@ -775,7 +781,7 @@ func runRegistrySeqOps(rc *RunCtx, prop string, fixed []regOp) {
 		case 1:
 			o := regOp{Kind: "regpipe", Typ: typ, PID: pid, NodeIDs: genPipeNodes(), Policy: genPolicy()}
 			if (prop == "C05" || prop == "C07") && o.Policy != "" && tp.Choose(4, "policy2") == 0 {
-				o.Policy2 = secondPolicy(o.Policy, tp.Choose(2, "policy2-kind"))
+				o.Policy2 = secondPolicy(o.Policy, tp.Choose(3, "policy2-kind"))
 			}
 			if (prop == "C05" || prop == "C07" || prop == "C06") && tp.Choose(5, "identical") == 0 {
 				// re-register a registered pipeline with exactly the node list it has now
@@ -1042,6 +1048,25 @@ func (*zsFormatter) Process(ctx context.Context, e *el.Event) (*el.Event, error)
 	return e, nil
 }
 
+// reopenFailure: a node's Reopen failure is a failure whatever it wraps (a file that was closed behind the
+// node's back, an end of file, a context error of the node's own making, a missing path).
+func reopenFailure(label string, k int) error {
+	msg := "injected reopen error of " + label
+	switch k % 6 {
+	case 1:
+		return fmt.Errorf("%s: %w", msg, os.ErrClosed)
+	case 2:
+		return &os.PathError{Op: "sync", Path: "/var/log/" + label + " (" + msg + ")", Err: os.ErrClosed}
+	case 3:
+		return fmt.Errorf("%s: %w", msg, io.EOF)
+	case 4:
+		return errors.Join(errors.New(msg), context.Canceled)
+	case 5:
+		return fmt.Errorf("%s: %w", msg, os.ErrNotExist)
+	}
+	return errors.New(msg)
+}
+
 // reopenErrList is an error whose dynamic type is not comparable (like go/scanner.ErrorList).
 type reopenErrList []string
 
@@ -1099,7 +1124,7 @@ func runReopenConc(rc *RunCtx) {
 	var failing, failing2 *reopenNode
 	if tp.Choose(3, "failnode") == 0 {
 		failing = listed[tp.Choose(len(listed), "which")]
-		failing.fail = fmt.Errorf("injected reopen error of %s", failing.label)
+		failing.fail = reopenFailure(failing.label, tp.Choose(6, "failure-kind"))
 		if tp.Choose(2, "second-failing-node") == 0 {
 			// several nodes fail in one call; their errors may be of one and the same NON-comparable dynamic
 			// type (an error list): errors are values to carry, not to compare with ==
@@ -1289,7 +1314,13 @@ func runInUseConc(rc *RunCtx) {
 				k = pks[0] // collisions on one pipeline are the interesting case
 			}
 			var o aop
-			switch tp.Choose(6, "op") {
+			switch tp.Choose(8, "op") {
+			case 6:
+				// the FIRST registration for an event type nobody has touched ...
+				o = aop{kind: "RegisterPipeline", k: pk{"tn", "n" + k.pid}, nids: pickNodes()}
+			case 7:
+				// ... may coincide with a threshold setter for that type (which creates the type's graph too)
+				o = aop{kind: "SetThresholds", k: pk{"tn", ""}}
 			case 0, 1:
 				o = aop{kind: "RemovePipeline", k: k}
 			case 2:
@@ -1318,6 +1349,10 @@ func runInUseConc(rc *RunCtx) {
 					b.RemoveNode(ctx, el.NodeID(o.id))
 				case "RegisterPipeline":
 					b.RegisterPipeline(el.Pipeline{PipelineID: el.PipelineID(o.k.pid), EventType: el.EventType(o.k.typ), NodeIDs: o.nids})
+				case "SetThresholds":
+					b.SetSuccessThreshold(el.EventType(o.k.typ), 0)
+					b.SetSuccessThresholdSinks(el.EventType(o.k.typ), 0)
+					simrt.Probe("inuse.setter-on-fresh-type")
 				}
 				simrt.Yield("acct:between")
 			}
@@ -1343,7 +1378,7 @@ func runInUseConc(rc *RunCtx) {
 		for _, o := range objs {
 			o.calls = 0
 		}
-		for _, t := range types {
+		for _, t := range append(append([]string{}, types...), "tn") {
 			b.Send(ctx, el.EventType(t), "probe")
 		}
 		for _, id := range ids {
